@@ -38,6 +38,7 @@ def run(ctx):
     r13_4(ctx, rep, roles)
     from .. import identity
     identity.check(ctx, rep, "C13", "R13.5", ["id-eq", "id-ord", "id-clone", "ns-clone"])
+    identity.check_keys(ctx, rep, "C13", "R13.6", ["watch", "fd-sets", "cluster"])
 
 
 def field_users(fx, adt, name):
